@@ -64,4 +64,43 @@ example :
 
 #print axioms tieA_fixed_select_data_pref_partial
 
+/-- legality of whatever a regenerated fixed-plan selection returns, from its tie to the model (`C09.selectTxChannel_legal`) -/
+theorem fixed_legal_of_tie {σ} (g : Rng σ) (rs : RegionState) (dr : DR) (fk : FrameKind) (s s' : σ)
+    (tx : Gen.PlanSelectFn.TxChannel) (p' : Gen.PlanSelectFn.FixedChannelPlan)
+    (x : Option (Gen.PlanSelectFn.TxChannel × Gen.PlanSelectFn.FixedChannelPlan × σ))
+    (h : x.map (fun o => (txOf o.1, { rs with plan := .fix (fixOf o.2.1) }, o.2.2)) = (selectTxChannel g rs dr fk s).toOption)
+    (hwf : regionWF rs = true) (hsel : x = some (tx, p', s')) :
+    getDatarate rs.id tx.dr.toInt.toNat = some tx.datarate ∧
+    ChannelLegal { rs with plan := .fix (fixOf p') } fk (txOf tx) ∧
+    (isUplinkDatarate rs.id dr.toInt.toNat = true → isUplinkDatarate rs.id tx.dr.toInt.toNat = true) := by
+  rw [hsel, Option.map_some] at h
+  have hm := toOption_eq_some h.symm
+  obtain ⟨_, h2, h3, h4⟩ := selectTxChannel_legal g rs _ dr fk s s' (txOf tx) hwf hm
+  exact ⟨h2, h3, h4⟩
+
+/-- **C09's legality carried over to the regenerated fixed-plan method, data frames** (PARTIAL: the two cases tied so
+far — under the bias with the biased channel enabled; after the bias with the preferred channel usable) -/
+theorem tieA_fixed_select_data_legal_partial {σ} (g : Rng σ) (rs : RegionState) (p p' : Gen.PlanSelectFn.FixedChannelPlan)
+    (hplan : rs.plan = .fix (fixOf p)) (hw : WalkWF p.join_channels) (hm : MaskWF p) (hwf : regionWF rs = true) (dr : DR)
+    (s s' : σ) (tx : Gen.PlanSelectFn.TxChannel)
+    (hcase :
+      ((jcOf p.join_channels).hasBiasAndNotExhausted = true ∧
+        ∀ ch jc' s1, (jcOf p.join_channels).getNextChannel g s = .ok (ch, jc', s1) →
+          Mask.isEnabled (natsOf p.channel_mask._0) ch ≠ .ok false) ∨
+      ((jcOf p.join_channels).hasBiasAndNotExhausted = false ∧
+        ∃ ch jc' s1 d, (jcOf p.join_channels).firstDataChannel g s = (some ch, jc', s1) ∧
+          Mask.isEnabled (natsOf p.channel_mask._0) ch = .ok true ∧
+          (datarates rs.id)[dr.toInt.toNat]? = some (some d) ∧ d.bandwidth = Bandwidth._125KHz))
+    (hsel : @Gen.PlanSelectFn.FixedChannelPlan.select_tx_channel σ (rngOf g) (fuelOf loopFuel) (fregOf rs.id) (walkOps g) p s dr .Data
+      = some (tx, p', s')) :
+    getDatarate rs.id tx.dr.toInt.toNat = some tx.datarate ∧
+    ChannelLegal { rs with plan := .fix (fixOf p') } .data (txOf tx) ∧
+    (isUplinkDatarate rs.id dr.toInt.toNat = true → isUplinkDatarate rs.id tx.dr.toInt.toNat = true) := by
+  rcases hcase with ⟨hb, hen⟩ | ⟨hb, ch, jc', s1, d, hfd, hen, hd, hbw⟩
+  · exact fixed_legal_of_tie g rs dr .data s s' tx p' _ (tieA_fixed_select_data_biased g rs p hplan hw hm dr s hb hen) hwf hsel
+  · exact fixed_legal_of_tie g rs dr .data s s' tx p' _
+      (tieA_fixed_select_data_pref_partial g rs p hplan hw.1 hm dr s hb ch jc' s1 d hfd hen hd hbw) hwf hsel
+
+#print axioms tieA_fixed_select_data_legal_partial
+
 end C09
